@@ -20,6 +20,18 @@ Mapped(t, vals, fast) == [C0(t, fast) EXCEPT !.vals = vals]
 VTup(ms) == [C0("VTuple", FALSE) EXCEPT !.ms = ms]
 InstN(k, an) == [C0("Instance", TRUE) EXCEPT !.k = k, !.an = an, !.nm = TRUE]
 Uni(ms, fast) == [C0("Union", fast) EXCEPT !.ms = ms]       \* fast: Either(...) (TraitCompound); not fast: Union(...)
+\* legacy Trait(...) forms: Trait(type) / Trait(constant) / Trait(class) / Trait(None, class) / Trait(d, function) /
+\* Trait(d, c1, c2, ...) / Trait(d, {map}) and the compound Trait(d, item, item, ...)
+TCo(k) == [C0("TCoerce", TRUE) EXCEPT !.k = k]
+TCa(k) == [C0("TCast", TRUE) EXCEPT !.k = k]
+TIn(k, an) == [C0("TInst", TRUE) EXCEPT !.k = k, !.an = an]     \* Trait(None, class) / Trait(TraitInstance(class, allow_none=False))
+\* Trait(class): the factory makes TraitInstance(class) with the handler's own default allow_none=True (the table in the
+\* factory's docstring says None cannot be assigned; the handler's documented default and the code say it can)
+TInC(k) == [C0("TInst", TRUE) EXCEPT !.k = k, !.an = TRUE, !.nm = TRUE]
+TFn == C0("TFunc", TRUE)
+TEn(vals) == [C0("TEnum", TRUE) EXCEPT !.vals = vals]
+TMp(vals) == [C0("TMap", TRUE) EXCEPT !.vals = vals]
+TUn(ms) == [C0("TUnion", TRUE) EXCEPT !.ms = ms]
 
 Bnd == {None9, 0, 2, 10}
 RangeFs == {RangeF(lo, hi, xl, xh) : lo \in Bnd, hi \in Bnd, xl \in BOOLEAN, xh \in BOOLEAN}
@@ -40,6 +52,13 @@ UnionMs == {<<S("Int"), S("Str")>>, <<S("Str"), S("Int")>>, <<S("Float"), S("Int
             <<B("Str"), S("Int")>>, <<S("Int"), B("Str")>>, <<Uni(<<S("Int"), B("Str")>>, TRUE), S("Float")>>,
             <<Uni(<<S("Int"), S("Str")>>, TRUE), S("Float")>>, <<S("Float"), Uni(<<B("Int"), S("Str")>>, TRUE)>>,
             <<Tup(<<S("Float"), S("Float")>>, TRUE), S("NoneT")>>}
+LegacyCfgs ==
+        {TCo(k) : k \in {"float", "complex", "int", "str"}} \cup {TCa(k) : k \in {"float", "int", "str", "bool", "complex"}}
+        \cup {TIn(k, an) : k \in {"A", "B"}, an \in BOOLEAN} \cup {TInC("A"), TInC("B")} \cup {TFn, S("CComplex"), B("CComplex")}
+        \cup {TEn(vs) : vs \in {{"i1", "i2"}, {"none", "f0", "s_a"}}} \cup {TMp({"s_a", "s_abc"})}
+        \cup {TUn(ms) : ms \in {<<TCo("float"), TCo("str")>>, <<TCo("str"), TCo("complex")>>, <<TCo("int"), TEn({"s_a"}), TMp({"s_abc"})>>,
+                                 <<TFn, TCo("float")>>, <<TCo("float"), TFn>>, <<TIn("A", TRUE), TCa("int")>>,
+                                 <<TCa("float"), TCo("str")>>, <<TEn({"none"}), TCo("complex"), TIn("B", FALSE)>>}}
 Cfgs == SimpleCfgs
         \cup {c \in RangeFs \cup RangeIs : GoodRange(c)}
         \cup {Enum(vs, f) : vs \in {{"i1", "i2"}, {"s_a", "s_abc"}, {"i1", "s_a", "none"}, {"f1", "f2h"}, {"bT"}}, f \in BOOLEAN}
@@ -54,6 +73,7 @@ Cfgs == SimpleCfgs
         \cup {InstN("A", an) : an \in BOOLEAN}
         \cup {Uni(<<S("Int"), InstN("A", FALSE)>>, TRUE), Uni(<<InstN("B", FALSE), S("Str")>>, TRUE),
               Uni(<<Mapped("Map", {"s_a", "s_abc"}, TRUE), S("Float")>>, TRUE)}
+        \cup LegacyCfgs
 
 Init == /\ cfg \in Cfgs /\ tok \in Tokens
         /\ last = [fast |-> Fast(cfg, tok), py |-> Py(cfg, tok), assign |-> Assign(cfg, tok),
@@ -67,7 +87,7 @@ Dev(c, t) ==
   (IF "F6" \in KnownFindings /\ c.t = "RangeF" /\ FloatKind(t) = "ok" /\ Tok[t].num = NaN THEN {"F6"} ELSE {})
   \cup (IF "F10" \in KnownFindings /\ c.t = "Callable" /\ ~c.an /\ Ty(t) = "none" THEN {"F10"} ELSE {})
   \cup (IF c.t = "Tuple" /\ Len(Items(t)) = Len(c.ms) THEN UNION {Dev(c.ms[k], Items(t)[k]) : k \in 1..Len(c.ms)} ELSE {})
-  \cup (IF c.t = "Union" THEN UNION {Dev(c.ms[k], t) : k \in 1..Len(c.ms)} ELSE {})
+  \cup (IF IsUnion(c) THEN UNION {Dev(c.ms[k], t) : k \in 1..Len(c.ms)} ELSE {})
 
 \* ---- C01: whatever an assignment stores lies in the declared domain
 C01_StoredInDomain == (last.assign.tag = "store" /\ Dev(cfg, tok) = {}) =>
@@ -75,8 +95,8 @@ C01_StoredInDomain == (last.assign.tag = "store" /\ Dev(cfg, tok) = {}) =>
 \* the only exceptions passed through come from the value's own conversion protocol
 C01_PropOnlyFromProtocol == last.assign.tag = "prop" =>
    \/ Ty(tok) \in {"idxraise", "fltraise"} \/ Tok[tok].num = Huge
-   \/ (cfg.t \in {"Tuple", "Union"})        \* a member's protocol exception (checked on the member's own case)
-   \/ (~HasFast(cfg) /\ cfg.t \in {"CInt", "CFloat"})   \* int(inf): OverflowError of the conversion
+   \/ (cfg.t \in {"Tuple", "Union", "TUnion"})        \* a member's protocol exception (checked on the member's own case)
+   \/ (~HasFast(cfg) /\ cfg.t \in {"CInt", "CFloat", "CComplex"})   \* int(inf): OverflowError of the conversion
 \* ---- C03: the fast path decides like the Python method
 Accept(r) == r.tag = "store"
 C03_SameAcceptSet == (HasFast(cfg) /\ Dev(cfg, tok) = {}) => (Accept(last.fast) <=> Accept(last.py))
@@ -84,7 +104,7 @@ C03_SameResult == (HasFast(cfg) /\ Dev(cfg, tok) = {} /\ Accept(last.fast) /\ Ac
                      last.fast.w = last.py.w /\ last.fm = last.pm
 C03_PyRejectImpliesFastReject == (HasFast(cfg) /\ Dev(cfg, tok) = {} /\ last.py.tag = "reject") => last.fast.tag = "reject"
 \* a compound yields the result of the first accepting alternative = validating against it alone
-C03_FirstAlternative == (cfg.t = "Union" /\ HasFast(cfg)) =>
+C03_FirstAlternative == (IsUnion(cfg) /\ HasFast(cfg)) =>
    LET k == FirstOK(cfg, tok, "fast") IN
    IF k = 0 THEN last.fast.tag = "reject" ELSE last.fast = Assign(cfg.ms[k], tok)
 =============================================================================
